@@ -89,6 +89,12 @@ CHECKS = {
    text="Generated-history search: up to 30 framed messages per history (document lifecycle with full/incremental/batched edits whose ranges are in range, past the end, inverted or negative, over ASCII, BMP and astral text; every request kind at arbitrary positions; unknown methods; requests without params; wrongly typed envelopes; malformed JSON; bad headers). After every message a sentinel request acts as a barrier and the invariants are checked: server alive, every outgoing frame well-formed with an exact Content-Length, exactly one response per request id and none otherwise, the server's copy of each document equals the reference model, and the last published diagnostics match the recovery parse of the model text in version, number and line. All (startLine, startChar, endLine, endChar) combinations over three small documents with an astral character are enumerated exhaustively.",
    note="Trusted: sequential message handling (barrier); the reference model's reading of the protocol's clamping rules; edits outside the protocol (negative, inverted, inside a surrogate pair) only have to be survived.",
    design="4/C18"),
+ "C17": dict(
+   technique="property-based testing: token-sequence preservation (round-trip through the tokenizer), idempotence and re-lint relations over generated hostile layouts for every rewriter; differential of each layout rule against a reference predicate computed with the reference lexer",
+   level="exploration",
+   text="Generated-input search over texts with hostile layout (double spaces, tabs, mixed indentation, trailing blanks, blank-line runs, CRLF, multi-line literals containing keywords/blanks, keyword-spelled quoted identifiers, comments containing quotes and keywords, non-ASCII). Rewriters: each auto-fixable rule's Fix alone, all fixes in the CLI's order, and the language server's textDocument/formatting applied through a real server. For each: token sequence and comment texts preserved (unquoted words case-insensitively), fixed point, no remaining violation of an applied rule, every violation location inside the text. Each layout rule (L001, L003, L005, L010, L007) must report exactly the (line, column) set of a reference predicate written from docs/LINTING_RULES.md and evaluated with the reference lexer's knowledge of literal and comment spans.",
+   note="Trusted: the library tokenizer as token reader (C04), the reference lexer for spans; blanks after a line comment's last visible character count as layout; one listed finding (backslash-escaped quotes) is pinned by the existing suite.",
+   design="4/C17"),
 }
 
 def main():
